@@ -12,7 +12,7 @@ ID = "C10"
 CHECK_MODULE = "Repro.StructCheck"
 PROPS_FILE = "Props/C10.v"
 SHARD = 50
-SHARD_IMPORTS = "From Verif Require Import Repro.Doc Repro.Struct."
+SHARD_IMPORTS = "From Verif Require Import Repro.Doc Repro.StructSort Repro.Struct."
 ANCHORS = [("lib/debian/_deb822_repro/parsing.py",
             ["Deb822NoDuplicateFieldsParagraphElement", "Deb822DuplicateFieldsParagraphElement",
              "Deb822FileElement", "_unpack_key", "_ensure_final_newline", "from_kvpairs",
@@ -23,12 +23,17 @@ RULE = ("documents of 1-3 paragraphs (c05.gen_doc: comment lines before fields, 
         "comments/blank lines between paragraphs, head/tail comments, with and without final LF), half of them "
         "with duplicated (also case-variant) field names, plus small documents over five names (60% with duplicates); "
         "x histories of 1-6 operations: order_first/last/before/after with un-indexed and (name, i) keys (mostly valid "
-        "indices, also negative, out of range, any case spelling, absent names, self references), sort_fields, "
+        "indices, also negative, out of range, any case spelling, absent names, self references), sort_fields (half of "
+        "them with a custom key: len, a constant, 'X- fields last', first character lower-cased, exact spelling), "
         "p[k]=v / del p[k] with un-indexed and indexed keys (plain one-line values; a few multi-line/invalid values "
         "and bad keys), Deb822FileElement.append/insert of freshly built paragraphs (index 0..n+1, rarely negative), "
         "re-appending a paragraph of the file; a 2% stream that empties a paragraph, appends/inserts and refills it "
         "(D23); a 10% stream of 2-4 paragraphs separated by free comment lines glued to the end of the paragraph "
-        "before / to the start of the next (with and without blank lines on either side) x insert at a middle index.  Observed after every operation: exception kind, dump(), a fresh parse of the dump (name and exact "
+        "before / to the start of the next (with and without blank lines on either side) x insert at a middle index; "
+        "a 14% stream of sort_fields(key=custom) on documents whose names tie under the key (equal lengths, equal first "
+        "characters, X- and other names, case variants) and that repeat a field 2-3 times with the occurrences interleaved "
+        "with other fields (own generator 60%, c05.gen_doc(dups) 40%), alone, after another operation, followed by a second "
+        "sort or by an indexed order/set/del on the sorted paragraph.  Observed after every operation: exception kind, dump(), a fresh parse of the dump (name and exact "
         "text of every field), and for the paragraph operated on (all paragraphs after append/insert and at the end "
         "of the history) and every name in it the position of get_kvpair_element((name, i)) among iter_parts() for "
         "i = -1, 0..count.  non-trivial = at least one operation succeeded and changed the dump")
@@ -40,7 +45,9 @@ TRUSTED = ["model coq/Repro/Struct.v (on coq/Repro/Doc.v) is a hand transcriptio
            "comment text, name text, remaining text per key-value pair)",
            "p[k]=v inside a history is Doc.setitem (C05's model); the reference judges it only for plain one-line values",
            "sorted() is a stable sort: modelled by insertion sort (coq/Repro/StructSort.v), proved sorted/stable/permutation "
-           "(coq/Repro/StructSortProofs.v)"]
+           "for every key function into a type with a total transitive <= (coq/Repro/StructSortProofs.v)",
+           "the key functions passed to sort_fields(key=...) are the six of SORT_KEYS; each is transcribed by hand as a "
+           "constructor of sortkey with its key type and Python's <= on it (str / int / bool) in coq/Repro/StructSort.v"]
 ASSUMPTIONS = ["keys are ASCII (str.lower is modelled by ascii_lower); histories are judged up to the first non-ASCII key",
                "set values outside 'plain one-line value' and new names outside [A-Za-z0-9][A-Za-z0-9_-]* end the judged "
                "part of a history (they are C05's subject); the model is still compared on them",
@@ -60,9 +67,24 @@ ASSUMPTIONS = ["keys are ASCII (str.lower is modelled by ascii_lower); histories
 # ---------------------------------------------------------------------------
 # implementation driver
 
+# sort_fields(key=...): name in the case -> (the Python key function passed, constructor of Repro/StructSort.v)
+SORT_KEYS = {
+    "default": (None, "KDefault"),                                       # sort_fields(): name.lower()
+    "len": (len, "KLen"),
+    "const": (lambda n: 0, "KConst"),                                    # everything ties
+    "xlast": (lambda n: n.lower().startswith("x-"), "KXLast"),          # "X-" fields after the others
+    "firstchar": (lambda n: n[:1].lower(), "KFirstChar"),
+    "exact": (str, "KExact"),                                            # the name as spelled, case-sensitive
+}
+CUSTOM_KEYS = ["len", "const", "xlast", "firstchar", "exact"]
+
+
 def apply_op(f, op):
     if op["o"] == "reappend":
         f.append(list(f)[op["p"]])
+        return
+    if op["o"] == "sort" and op.get("key", "default") != "default":
+        list(f)[op["p"]].sort_fields(key=SORT_KEYS[op["key"]][0])
         return
     c05.apply_op(f, op)
 
@@ -108,7 +130,10 @@ def observe_step(f, op, last):
         apply_op(f, op)
     except Exception as e:
         err = err_kind(e)
-    dump = f.dump()
+    try:
+        dump = f.dump()
+    except Exception as e:      # the document must always be printable: recorded, so that holds judges it
+        dump = "\x00<dump() raised %s after this operation>" % err_kind(e)
     st = {"err": err, "dump": dump, "pos": []}
     everything = last or op["o"] in ("append", "insert", "reappend")
     for j, p in enumerate(f):
@@ -153,7 +178,7 @@ def cq_op(op, S):
     if o == "after":
         return "LAfter %d %s %s" % (op["p"], cq_key(op["k"], S), cq_key(op["r"], S))
     if o == "sort":
-        return "LSort %d" % op["p"]
+        return "LSort %d %s" % (op["p"], SORT_KEYS[op.get("key", "default")][1])
     if o == "set":
         return "LSet %d %s %s" % (op["p"], cq_key(op["k"], S), S(op["v"]))
     if o == "del":
@@ -331,6 +356,8 @@ def gen_op(rng, npp):
     names = npp[j] or ["A"]
     o = rng.choice(["first", "last", "before", "after", "first", "last", "before", "after", "sort", "set", "set", "del"])
     op = {"o": o, "p": j}
+    if o == "sort" and rng.random() < 0.5:
+        op["key"] = rng.choice(CUSTOM_KEYS)
     if o != "sort":
         op["k"] = gen_key(rng, names)
     if o in ("before", "after"):
@@ -390,11 +417,78 @@ def gen_insert_history(rng):
     return {"text": text, "ops": ops}
 
 
+# names that tie with one another under the custom sort keys: equal lengths (A/B/e, Ab/ab/a1/Zz/XY,
+# X-Foo/x-bar, Depends/Package/Section), equal first characters (Source/Section, Package/Pre-Depends,
+# A/Ab/ab/a1, X-Foo/x-bar/X-B/XY), with and without the "X-" prefix, case variants
+SORT_NAMES = ["Source", "Depends", "Homepage", "Package", "Section", "Pre-Depends", "X-Foo", "x-bar", "X-B", "XY",
+              "A", "B", "e", "Ab", "ab", "a1", "Zz"]
+
+
+def gen_sort_doc(rng):
+    """1-2 paragraphs over SORT_NAMES, most of them with a field repeated 2-3 times (same or another case
+    spelling) whose occurrences are interleaved with the other fields; every field has its own value"""
+    npar = rng.choice([1, 1, 1, 2])
+    text = rng.choice(["", "", "", "# head\n\n"])
+    npp = []
+    v = 0
+    for j in range(npar):
+        names = rng.sample(SORT_NAMES, rng.choice([2, 3, 3, 4, 5, 6]))
+        if rng.random() < 0.75:
+            for _ in range(rng.choice([1, 1, 2])):
+                n = rng.choice(names)
+                for _ in range(rng.choice([1, 1, 2])):
+                    names.insert(rng.randint(0, len(names)), rng.choice([n, n, n.lower(), n.upper(), n.swapcase()]))
+        for n in names:
+            if rng.random() < 0.15:
+                text += "# c%d\n" % v
+            text += "%s: v%d\n" % (n, v)
+            if rng.random() < 0.15:
+                text += rng.choice([" cont\n", "# in\n more\n"])
+            v += 1
+        npp.append(names)
+        if j + 1 < npar:
+            text += rng.choice(["\n", "\n", "\n# free\n\n"])
+    if rng.random() < 0.35:
+        text = text[:-1]
+    return text, npp
+
+
+def gen_sort_case(rng):
+    """sort_fields with a custom key on a document whose names tie under it (own small documents, or c05's
+    duplicate-fields documents), sometimes after / before other operations on the same paragraph (the name
+    index must follow the new order: indexed keys afterwards)"""
+    if rng.random() < 0.6:
+        text, npp = gen_sort_doc(rng)
+    else:
+        text, npp = c05.gen_doc(rng, dups=rng.random() < 0.8)
+    npp = [list(x) for x in npp]
+    ops = []
+    if rng.random() < 0.25:
+        ops.append(gen_op(rng, npp))
+    j = rng.randrange(len(npp))
+    ops.append({"o": "sort", "p": j, "key": rng.choice(CUSTOM_KEYS)})
+    r = rng.random()
+    if r < 0.2:
+        ops.append({"o": "sort", "p": j, "key": rng.choice(CUSTOM_KEYS + ["default"])})
+    elif r < 0.45 and npp[j]:
+        n = rng.choice(npp[j])
+        c = sum(1 for m in npp[j] if m.lower() == n.lower())
+        o = rng.choice(["first", "last", "del", "set"])
+        op = {"o": o, "p": j, "k": [n, rng.randrange(c)] if rng.random() < 0.8 else n}
+        if o == "set":
+            op["v"] = rng.choice(VALUES)
+        ops.append(op)
+    return {"text": text, "ops": ops}
+
+
 def generate(rng, n, tier):
     for t in range(n):
         r = rng.random()
         if r < 0.02:
             yield gen_empty_tail(rng)
+            continue
+        if r >= 0.86:
+            yield gen_sort_case(rng)
             continue
         if r < 0.10:
             yield gen_insert_history(rng)
@@ -420,6 +514,8 @@ def classify(case, obs):
     prev = case["text"]
     for op, st in zip(case["ops"], obs["steps"]):
         k = op["o"]
+        if k == "sort" and op.get("key", "default") != "default":
+            k += "-" + op["key"]
         if any(not isinstance(op.get(x, ""), str) for x in ("k", "r")):
             k += "-idx"
         k += ":" + (st["err"] or ("same" if st["dump"] == prev else "ok"))
@@ -476,6 +572,8 @@ def shrink(case):
             yield dict(case, ops=ops[:i] + [dict(op, kv=op["kv"][:1])] + ops[i + 1:])
         if op["o"] == "insert":
             yield dict(case, ops=ops[:i] + [{"o": "append", "kv": op["kv"]}] + ops[i + 1:])
+        if op["o"] == "sort" and op.get("key", "default") not in ("default", "const"):
+            yield dict(case, ops=ops[:i] + [dict(op, key="const")] + ops[i + 1:])
     for i, l in enumerate(lines):
         if len(l) > 4 and not l.startswith(("#", " ", "\t")) and ":" in l:
             name, _, rest = l.partition(":")
@@ -488,7 +586,9 @@ def shrink(case):
 
 def describe(case, obs):
     return {"call": "f = parse_deb822_file(text); per op: p = list(f)[op.p]; first/last: p.order_first/last(k) | "
-                    "before/after: p.order_before/after(k, r) | sort: p.sort_fields() | set: p[k] = v | del: del p[k] | "
+                    "before/after: p.order_before/after(k, r) | sort: p.sort_fields() or, with op.key, p.sort_fields(key=F): "
+                    "len -> len, const -> lambda n: 0, xlast -> lambda n: n.lower().startswith('x-'), firstchar -> "
+                    "lambda n: n[:1].lower(), exact -> str | set: p[k] = v | del: del p[k] | "
                     "append/insert: f.append/insert(i, paragraph built by new_empty_paragraph() and p[k] = v) | "
                     "reappend: f.append(list(f)[p]); keys written [name, i] are the tuples (name, i)",
             "text": case["text"], "ops": case["ops"],
@@ -497,7 +597,9 @@ def describe(case, obs):
             "reparse_after_each_op": [st["reparse"] for st in obs.get("steps", [])],
             "positions_after_each_op": [st["pos"] for st in obs.get("steps", [])],
             "specified": "every dump = concatenation of the field texts of the reference list after the same list "
-                         "operation (whole fields moved/removed/replaced, moved duplicates keep their order; only a "
+                         "operation (whole fields moved/removed/replaced, moved duplicates keep their order; "
+                         "sort_fields(key=...) is the stable sort by that key: fields whose keys tie keep their relative "
+                         "order, occurrences of a repeated field stay interleaved with the tying fields of other names; only a "
                          "missing final newline may be supplied); a fresh parse of the dump shows the reference's "
                          "non-empty paragraphs field by field; get_kvpair_element((name, i)) is the i-th field of "
                          "that name in document order; refused operations leave the dump unchanged (up to that newline)"}
